@@ -1216,7 +1216,7 @@ func racePhase(vd string, seed uint64, tier string, levels []int, a *agg) {
 			out := obuf.Bytes()
 			if err != nil && strings.Contains(err.Error(), "timeout") {
 				// task sets that never finish when run side by side: same class as a hang
-				tr := &props.Trace{Property: "C17", Level: j.level, Seed: seed, Index: j.from, Note: "free", Oracle: "C17.free_running_hang",
+				tr := &props.Trace{Property: "C17", Level: j.level, Seed: seed, Index: j.from, Stride: j.to - j.from, Note: "free", Oracle: "C17.free_running_hang",
 					Detail: fmt.Sprintf("free-running task sets %d..%d (seed %d) at level %d GOMAXPROCS %d did not finish within %v; each set finishes in milliseconds when its tasks run alone", j.from, j.to, seed, j.level, j.procs, limit)}
 				a.mu.Lock()
 				a.viol = append(a.viol, levelViolation{level: j.level, idx: j.from, v: props.Violation{Oracle: tr.Oracle, Detail: tr.Detail, Trace: tr, Features: map[string]string{}}})
@@ -1255,7 +1255,7 @@ func racePhase(vd string, seed uint64, tier string, levels []int, a *agg) {
 					a.mu.Lock()
 					a.stats["race_reports_total"]++
 					if strings.Contains(rep, "github.com/intel/fastgo") {
-						tr := &props.Trace{Property: "C17", Level: j.level, Seed: seed, Note: "free", Oracle: "C17.race_report",
+						tr := &props.Trace{Property: "C17", Level: j.level, Seed: seed, Index: j.from, Stride: j.to - j.from, Note: "free", Oracle: "C17.race_report",
 							Detail: fmt.Sprintf("race detector report at level %d GOMAXPROCS %d (task sets %d..%d of seed %d):\n%s", j.level, j.procs, j.from, j.to, seed, clipStr(rep, 2500))}
 						a.viol = append(a.viol, levelViolation{level: j.level, idx: j.from, v: props.Violation{Oracle: "C17.race_report", Detail: tr.Detail, Trace: tr, Features: map[string]string{}}})
 						a.violCount++
@@ -1293,7 +1293,11 @@ func replayFree(path string, tr *props.Trace) int {
 		defer os.RemoveAll(tmp)
 		logp := filepath.Join(tmp, "race")
 		for _, gp := range []int{2, 4, 16} {
-			cmd := exec.Command(raceBin, "racepass", strconv.FormatUint(tr.Seed, 10), strconv.Itoa(tr.Index), strconv.Itoa(tr.Index+40))
+			span := tr.Stride
+			if span <= 0 {
+				span = 40
+			}
+			cmd := exec.Command(raceBin, "racepass", strconv.FormatUint(tr.Seed, 10), strconv.Itoa(tr.Index), strconv.Itoa(tr.Index+span))
 			cmd.Env = append(os.Environ(), fmt.Sprintf("FASTGO_VERIF_ARCHLEVEL=%d", tr.Level), fmt.Sprintf("GOMAXPROCS=%d", gp), "GORACE=log_path="+logp+" halt_on_error=0 exitcode=0")
 			if err := runWithTimeout(cmd, 3*time.Minute); err != nil && strings.Contains(err.Error(), "timeout") && strings.HasSuffix(tr.Oracle, "free_running_hang") {
 				fmt.Printf("VIOLATION property=C17 replay=%s\n  oracle=%s the task sets did not finish within 3 minutes at GOMAXPROCS %d\n", path, tr.Oracle, gp)
